@@ -13,6 +13,10 @@ of the underlying writer (so for every pattern of short writes).
   specification `firstStatus` (a function of the program text only).
 * `C06_late_writeHeader_ignored`, `C06_committed_stable`, `C06_ignored_status_logged` —
   after commit no operation changes what was sent or reported; ignored status writes are logged.
+* `C06_seq_fresh`, `C06_inv_seq`, `C06_seq_first_status`, `C06_seq_trace_ok` — sequences of
+  requests served on one recycled context (`reset` between them): every request behaves
+  like one on a brand-new response; `C06_flush_without_flusher` — the F5 clause on a writer
+  that cannot flush.  All theorems hold for writers with and without `http.Flusher` (`fl`).
 * `Scan` — the hook/order clause of the property as an acceptor over event traces, with
   lemmas that say what acceptance means (`scan_before_once`, `scan_after_each_write`,
   `scan_no_implicit`), and their combination with `C06_inv`:
@@ -173,7 +177,7 @@ theorem Inv.calls_le {s : St} (h : Inv s) : s.raw.calls.length ≤ 1 := by
   | true => simp [(h.sent hc).2]
   | false => simp [(h.unsent hc).1]
 
-theorem inv_init (p cap : Nat) : Inv (init p cap) := by
+theorem inv_init (p cap : Nat) (fl : Bool) : Inv (init p cap fl) := by
   constructor <;> simp [init, scanFrom, scanOf, bodyBytes, hdrCalls]
 
 theorem Inv.sent_none {s : St} (h : Inv s) (hc : s.committed = false) : s.raw.sent = none := by
@@ -194,7 +198,7 @@ theorem writeHeader_uncommitted_eq {s : St} (hc : s.committed = false) (hn : s.r
     writeHeader s c =
       { s with committed := true, status := c,
                raw := { s.raw with calls := s.raw.calls ++ [c], sent := some c, sentCt := s.ct,
-                                   sentLoc := s.loc },
+                                   sentLoc := s.loc, sentDisp := s.disp },
                trace := s.trace ++ (s.before.map .runB ++ [.hdr c]) } := by
   simp [writeHeader, hc, emit, rawWriteHeader, rawSend, hn]
 
@@ -320,6 +324,9 @@ theorem inv_flush {s : St} (h : Inv s) : Inv (flush s) := by
   unfold flush
   generalize ensureCommitted s = t at h1 hc
   have hs := h1.sent hc
+  show Inv (if t.raw.canFlush = true then rawFlush t else t)
+  split
+  case isFalse => exact h1
   rw [rawFlush_sent hs.1]
   exact {
     comm := by simpa using h1.comm
@@ -353,6 +360,11 @@ theorem inv_writeCT {s : St} (h : Inv s) (v : Nat) : Inv (writeCT s v) := by
   · exact h
 
 theorem inv_setLoc {s : St} (h : Inv s) : Inv { s with loc := true } :=
+  { comm := h.comm, sent := h.sent, unsent := h.unsent, size := h.size
+    trace := by have := h.trace; simpa [scanOf] using this
+    bodyTrace := h.bodyTrace, hdrTrace := h.hdrTrace }
+
+theorem inv_setDisp {s : St} (h : Inv s) (d : Nat) : Inv { s with disp := d } :=
   { comm := h.comm, sent := h.sent, unsent := h.unsent, size := h.size
     trace := by have := h.trace; simpa [scanOf] using this
     bodyTrace := h.bodyTrace, hdrTrace := h.hdrTrace }
@@ -418,6 +430,21 @@ theorem inv_step {s : St} (h : Inv s) (op : Op) : Inv (step s op).1 := by
   | flushFE => exact inv_flush h
   | unwrap => exact h
   | copy chunks rerr => exact inv_writes h (chunks.filter (· ≠ 0))
+  | jsonp c cb k ok => exact inv_writes (inv_writeHeader (inv_writeCT h ctJS) c) _
+  | xml c k ok => exact inv_writes (inv_writeHeader (inv_writeCT h ctXML) c) _
+  | render c n ok =>
+    cases ok with
+    | true => exact inv_write (inv_writeHeader (inv_writeCT h _) _) _
+    | false => exact h
+  | file found n disp ct =>
+    have hd : Inv (if disp = 0 then s else { s with disp := disp }) := by
+      split
+      · exact h
+      · exact inv_setDisp h disp
+    cases found with
+    | true => exact inv_writes (inv_writeHeader (inv_writeCT hd ct) 200) _
+    | false => exact hd
+  | hijack => exact h
 
 theorem inv_run {s : St} (h : Inv s) (prog : List Op) : Inv (run s prog) := by
   induction prog generalizing s with
@@ -426,8 +453,8 @@ theorem inv_run {s : St} (h : Inv s) (prog : List Op) : Inv (run s prog) := by
 
 /-- **C06_inv** — the bookkeeping invariant holds after every handler program, from every
     initial pending status and for every capacity of the underlying writer. -/
-theorem C06_inv (p cap : Nat) (prog : List Op) : Inv (run (init p cap) prog) :=
-  inv_run (inv_init p cap) prog
+theorem C06_inv (p cap : Nat) (fl : Bool) (prog : List Op) : Inv (run (init p cap fl) prog) :=
+  inv_run (inv_init p cap fl) prog
 
 /-! ## what is sent and reported: first status wins, later status writes are ignored and logged -/
 
@@ -480,8 +507,12 @@ theorem hv_write_sent {t : St} (ht : Sent t) (n : Nat) : hv (write t n).1 = hv t
 theorem hv_flush_sent {t : St} (ht : Sent t) : hv (flush t) = hv t := by
   obtain ⟨hc, v, hs⟩ := ht
   unfold flush
-  rw [ensureCommitted_of_committed hc, rawFlush_sent hs]
-  simp [hv, countWarn]
+  rw [ensureCommitted_of_committed hc]
+  show hv (if t.raw.canFlush = true then rawFlush t else t) = hv t
+  split
+  · rw [rawFlush_sent hs]
+    simp [hv, countWarn]
+  · rfl
 
 theorem hv_writes_sent {t : St} (ht : Sent t) (l : List Nat) : hv (writes t l).1 = hv t := by
   induction l generalizing t with
@@ -505,9 +536,12 @@ theorem Sent.writeHeader {t : St} (ht : Sent t) (c : Nat) : Sent (writeHeader t 
 /-- does the operation carry a status code that it tries to set? -/
 def carriesStatus : Op → Bool
   | .writeHeader _ | .json _ _ _ | .blob _ _ _ | .noContent _ | .stream _ _ _ | .xmlBlob _ _
-  | .jsonpBlob _ _ _ => true
+  | .jsonpBlob _ _ _ | .jsonp _ _ _ _ | .xml _ _ _ => true
   | .redirect c => !(decide (c < 300 ∨ c > 308))
-  | .write _ | .flush | .before _ | .after _ | .flushRC | .flushFE | .unwrap | .copy _ _ => false
+  | .render _ _ ok => ok          -- without a rendered page no status write is attempted
+  | .file found _ _ _ => found    -- ServeContent's `WriteHeader(200)`; a missing file attempts none
+  | .write _ | .flush | .before _ | .after _ | .flushRC | .flushFE | .unwrap | .copy _ _
+  | .hijack => false
 
 /-- one operation on a response whose headers are out -/
 theorem hv_step_sent {s : St} (hs : Sent s) (op : Op) :
@@ -571,6 +605,46 @@ theorem hv_step_sent {s : St} (hs : Sent s) (op : Op) :
     have : hv (step s (.copy chunks rerr)).1 = hv (writes s (chunks.filter (· ≠ 0))).1 := rfl
     rw [this, hv_writes_sent hs]
     simp [carriesStatus]
+  | jsonp c cb k ok =>
+    have h1 := (hs.writeCT ctJS).writeHeader c
+    have : hv (step s (.jsonp c cb k ok)).1
+        = hv (writes (writeHeader (writeCT s ctJS) c)
+            (if ok then [cb + 1, k + 3, 2] else [cb + 1])).1 := rfl
+    rw [this, hv_writes_sent h1, hv_writeHeader_sent (hs.writeCT _), hv_writeCT]
+    simp [carriesStatus]
+  | xml c k ok =>
+    have h1 := (hs.writeCT ctXML).writeHeader c
+    have : hv (step s (.xml c k ok)).1
+        = hv (writes (writeHeader (writeCT s ctXML) c)
+            (if ok then [xmlHeaderLen, k + 17] else [xmlHeaderLen])).1 := rfl
+    rw [this, hv_writes_sent h1, hv_writeHeader_sent (hs.writeCT _), hv_writeCT]
+    simp [carriesStatus]
+  | render c n ok =>
+    cases ok with
+    | true =>
+      have h1 := (hs.writeCT ctHTML).writeHeader c
+      have : hv (step s (.render c n true)).1
+          = hv (write (writeHeader (writeCT s ctHTML) c) n).1 := rfl
+      rw [this, hv_write_sent h1, hv_writeHeader_sent (hs.writeCT _), hv_writeCT]
+      simp [carriesStatus]
+    | false => simp [carriesStatus, step]
+  | file found n disp ct =>
+    have hd : hv (if disp = 0 then s else { s with disp := disp }) = hv s := by split <;> rfl
+    have hsd : Sent (if disp = 0 then s else { s with disp := disp }) := Sent.of_hv hd hs
+    cases found with
+    | true =>
+      have h1 := (hsd.writeCT ct).writeHeader 200
+      have : hv (step s (.file true n disp ct)).1
+          = hv (writes (writeHeader (writeCT (if disp = 0 then s else { s with disp := disp }) ct) 200)
+              ([n].filter (· ≠ 0))).1 := rfl
+      rw [this, hv_writes_sent h1, hv_writeHeader_sent (hsd.writeCT _), hv_writeCT, hd]
+      simp [carriesStatus]
+    | false =>
+      have : hv (step s (.file false n disp ct)).1
+          = hv (if disp = 0 then s else { s with disp := disp }) := rfl
+      rw [this, hd]
+      simp [carriesStatus]
+  | hijack => simp [carriesStatus, step]
 
 theorem Inv.toSent {s : St} (h : Inv s) (hc : s.committed = true) : Sent s :=
   ⟨hc, s.status, (h.sent hc).1⟩
@@ -643,6 +717,11 @@ def opEffect (p : Nat) : Op → Eff
   | .flushFE => .commits (pend p)
   | .unwrap => .pending p
   | .copy chunks _ => if chunks.filter (· ≠ 0) = [] then .pending p else .commits (pend p)
+  | .jsonp c _ _ _ => .commits c         -- also when the value cannot be serialised
+  | .xml c _ _ => .commits c             -- also when the value cannot be encoded
+  | .render c _ ok => if ok then .commits c else .pending p
+  | .file found _ _ _ => if found then .commits 200 else .pending p
+  | .hijack => .pending p
 
 /-- the first status set by a program started with pending status `p` (`none`: the program
     never sends anything) -/
@@ -689,7 +768,7 @@ theorem hv_flush_unsent {s : St} (h : Inv s) (hc : s.committed = false) :
   have h1 := hv_ensureCommitted_unsent h hc
   have hs := sent_of_hv_committedWith h1
   have : flush s = flush (ensureCommitted s) := by
-    simp [flush, ensureCommitted_of_committed (ensureCommitted_committed s)]
+    simp only [flush, ensureCommitted_of_committed (ensureCommitted_committed s)]
   rw [this, hv_flush_sent hs]
   exact h1
 
@@ -701,6 +780,18 @@ theorem hv_writes_unsent_cons {s : St} (h : Inv s) (hc : s.committed = false) (n
   split
   · simpa using h1
   · rw [hv_writes_sent (sent_of_hv_committedWith h1)]; exact h1
+
+/-- content type, `WriteHeader(c)`, then any sequence of writes (the shape of every helper
+    that names its status), on an uncommitted response: commits with `c` -/
+theorem hv_serve_unsent {t : St} (h : Inv t) (hc : t.committed = false) (ct c : Nat) (l : List Nat) :
+    hv (writes (writeHeader (writeCT t ct) c) l).1 = committedWith t c := by
+  have hc1 : (writeCT t ct).committed = false := by
+    have := congrArg HV.committed (hv_writeCT t ct); simpa [hv, hc] using this
+  have htr : countWarn (writeCT t ct).trace = countWarn t.trace := by
+    have := congrArg HV.warns (hv_writeCT t ct); simpa [hv] using this
+  have h1 := hv_writeHeader_unsent (inv_writeCT h ct) hc1 c
+  rw [hv_writes_sent (sent_of_hv_committedWith h1), h1]
+  simp [committedWith, htr]
 
 /-- one operation on an uncommitted response does what `opEffect` says -/
 theorem step_effect {s : St} (h : Inv s) (hc : s.committed = false) (op : Op) :
@@ -799,6 +890,72 @@ theorem step_effect {s : St} (h : Inv s) (hc : s.committed = false) (op : Op) :
       simp only [List.cons_ne_nil, if_false]
       rw [this, hl]
       exact hv_writes_unsent_cons h hc n ns
+  | jsonp c cb k ok =>
+    have hc1 : (writeCT s ctJS).committed = false := by
+      have := congrArg HV.committed (hv_writeCT s ctJS); simpa [hv, hc] using this
+    have htr : countWarn (writeCT s ctJS).trace = countWarn s.trace := by
+      have := congrArg HV.warns (hv_writeCT s ctJS); simpa [hv] using this
+    have h1 := hv_writeHeader_unsent (inv_writeCT h ctJS) hc1 c
+    have : hv (step s (.jsonp c cb k ok)).1
+        = hv (writes (writeHeader (writeCT s ctJS) c)
+            (if ok then [cb + 1, k + 3, 2] else [cb + 1])).1 := rfl
+    simp only [opEffect]
+    rw [this, hv_writes_sent (sent_of_hv_committedWith h1), h1]
+    simp [committedWith, htr]
+  | xml c k ok =>
+    have hc1 : (writeCT s ctXML).committed = false := by
+      have := congrArg HV.committed (hv_writeCT s ctXML); simpa [hv, hc] using this
+    have htr : countWarn (writeCT s ctXML).trace = countWarn s.trace := by
+      have := congrArg HV.warns (hv_writeCT s ctXML); simpa [hv] using this
+    have h1 := hv_writeHeader_unsent (inv_writeCT h ctXML) hc1 c
+    have : hv (step s (.xml c k ok)).1
+        = hv (writes (writeHeader (writeCT s ctXML) c)
+            (if ok then [xmlHeaderLen, k + 17] else [xmlHeaderLen])).1 := rfl
+    simp only [opEffect]
+    rw [this, hv_writes_sent (sent_of_hv_committedWith h1), h1]
+    simp [committedWith, htr]
+  | render c n ok =>
+    cases ok with
+    | true =>
+      have hc1 : (writeCT s ctHTML).committed = false := by
+        have := congrArg HV.committed (hv_writeCT s ctHTML); simpa [hv, hc] using this
+      have htr : countWarn (writeCT s ctHTML).trace = countWarn s.trace := by
+        have := congrArg HV.warns (hv_writeCT s ctHTML); simpa [hv] using this
+      have h1 := hv_writeHeader_unsent (inv_writeCT h ctHTML) hc1 c
+      have : hv (step s (.render c n true)).1
+          = hv (write (writeHeader (writeCT s ctHTML) c) n).1 := rfl
+      simp only [opEffect, if_true]
+      rw [this, hv_write_sent (sent_of_hv_committedWith h1), h1]
+      simp [committedWith, htr]
+    | false => exact ⟨hc, rfl⟩
+  | file found n disp ct =>
+    have hd : hv (if disp = 0 then s else { s with disp := disp }) = hv s := by split <;> rfl
+    have hid : Inv (if disp = 0 then s else { s with disp := disp }) := by
+      split
+      · exact h
+      · exact inv_setDisp h disp
+    have hcd : (if disp = 0 then s else { s with disp := disp }).committed = false := by
+      have := congrArg HV.committed hd; simpa [hv, hc] using this
+    have hsd : (if disp = 0 then s else { s with disp := disp }).status = s.status := by
+      have := congrArg HV.status hd; simpa [hv] using this
+    have htd : countWarn (if disp = 0 then s else { s with disp := disp }).trace
+        = countWarn s.trace := by
+      have := congrArg HV.warns hd; simpa [hv] using this
+    cases found with
+    | true =>
+      have : hv (step s (.file true n disp ct)).1
+          = hv (writes (writeHeader (writeCT (if disp = 0 then s else { s with disp := disp }) ct) 200)
+              ([n].filter (· ≠ 0))).1 := rfl
+      simp only [opEffect, if_true]
+      rw [this, hv_serve_unsent hid hcd]
+      simp [committedWith, htd]
+    | false =>
+      have : (step s (.file false n disp ct)).1
+          = (if disp = 0 then s else { s with disp := disp }) := rfl
+      simp only [opEffect, Bool.false_eq_true, if_false]
+      rw [this]
+      exact ⟨hcd, hsd⟩
+  | hijack => exact ⟨hc, rfl⟩
 
 theorem first_status_run {s : St} (h : Inv s) (hc : s.committed = false) (prog : List Op) :
     (run s prog).raw.sent = firstStatus s.status prog ∧
@@ -833,11 +990,11 @@ theorem first_status_run {s : St} (h : Inv s) (hc : s.committed = false) (prog :
     the writer received exactly that one `WriteHeader` call (or none at all if the program
     never sends), and `Response.Status` reports it at the end of the program, whatever later
     operations tried to set. -/
-theorem C06_first_status_wins (p cap : Nat) (prog : List Op) :
-    (run (init p cap) prog).raw.sent = firstStatus p prog ∧
-    (run (init p cap) prog).raw.calls = (firstStatus p prog).toList ∧
-    (∀ c, firstStatus p prog = some c → (run (init p cap) prog).status = c) :=
-  first_status_run (inv_init p cap) rfl prog
+theorem C06_first_status_wins (p cap : Nat) (fl : Bool) (prog : List Op) :
+    (run (init p cap fl) prog).raw.sent = firstStatus p prog ∧
+    (run (init p cap fl) prog).raw.calls = (firstStatus p prog).toList ∧
+    (∀ c, firstStatus p prog = some c → (run (init p cap fl) prog).status = c) :=
+  first_status_run (inv_init p cap fl) rfl prog
 
 /-! ## what acceptance by `Scan` means (lemmas about the specification itself, for ANY trace) -/
 
@@ -1187,8 +1344,8 @@ theorem scan_flush_after_headers {pre post : List Ev} {σ : Scan}
 /-! ## the hook clauses for every program -/
 
 /-- the trace of every program is accepted by the specification, and ends quiet -/
-theorem C06_trace_ok (p cap : Nat) (prog : List Op) : traceOK (run (init p cap) prog).trace = true := by
-  have h := (C06_inv p cap prog).trace
+theorem C06_trace_ok (p cap : Nat) (fl : Bool) (prog : List Op) : traceOK (run (init p cap fl) prog).trace = true := by
+  have h := (C06_inv p cap fl prog).trace
   simp only [traceOK, h]
   exact scanOf_quiet _
 
@@ -1198,18 +1355,18 @@ theorem C06_trace_ok (p cap : Nat) (prog : List Op) : traceOK (run (init p cap) 
     send), the before-hooks that ran are exactly those registered before it — once each, in
     order — and afterwards no before-hook runs again and no further `WriteHeader` call
     reaches the writer. -/
-theorem C06_before_hooks_once (p cap : Nat) (prog : List Op) (pre post : List Ev) (c : Nat)
-    (htr : (run (init p cap) prog).trace = pre ++ .hdr c :: post) :
+theorem C06_before_hooks_once (p cap : Nat) (fl : Bool) (prog : List Op) (pre post : List Ev) (c : Nat)
+    (htr : (run (init p cap fl) prog).trace = pre ++ .hdr c :: post) :
     runBs pre = regBs pre ∧ (∀ e ∈ pre, isPre e = true) ∧ runBs post = [] ∧ hdrCalls post = [] := by
-  have h := (C06_inv p cap prog).trace
+  have h := (C06_inv p cap fl prog).trace
   rw [htr] at h
   exact scan_before_once h
 
 /-- before-hooks never run while the response stays uncommitted -/
-theorem C06_before_hooks_not_without_headers (p cap : Nat) (prog : List Op)
-    (hc : (run (init p cap) prog).committed = false) :
-    runBs (run (init p cap) prog).trace = [] ∧ ∀ e ∈ (run (init p cap) prog).trace, isPre e = true := by
-  have h := (C06_inv p cap prog).trace
+theorem C06_before_hooks_not_without_headers (p cap : Nat) (fl : Bool) (prog : List Op)
+    (hc : (run (init p cap fl) prog).committed = false) :
+    runBs (run (init p cap fl) prog).trace = [] ∧ ∀ e ∈ (run (init p cap fl) prog).trace, isPre e = true := by
+  have h := (C06_inv p cap fl prog).trace
   have g := good_scan _ {} _ [] good_init h
   simp only [List.nil_append] at g
   have gp := g.ph
@@ -1219,37 +1376,279 @@ theorem C06_before_hooks_not_without_headers (p cap : Nat) (prog : List Op)
 /-- **C06_after_hooks_each_write** — for every program: every body write that reaches the
     underlying writer comes after the headers and is immediately followed by the execution
     of exactly the after-hooks registered up to then, once each, in registration order. -/
-theorem C06_after_hooks_each_write (p cap : Nat) (prog : List Op) (pre post : List Ev) (k : Nat)
-    (htr : (run (init p cap) prog).trace = pre ++ .body k :: post) :
+theorem C06_after_hooks_each_write (p cap : Nat) (fl : Bool) (prog : List Op) (pre post : List Ev) (k : Nat)
+    (htr : (run (init p cap fl) prog).trace = pre ++ .body k :: post) :
     (regAs pre).map .runA <+: post ∧ hdrCalls pre ≠ [] := by
-  have h := (C06_inv p cap prog).trace
+  have h := (C06_inv p cap fl prog).trace
   rw [htr] at h
   exact scan_after_each_write h (scanOf_quiet _)
 
 /-- **C06_headers_at_most_once** — for every program the underlying writer receives at most
     one `WriteHeader` call, never has to send an implicit 200 of its own, and is flushed only
     after the headers. -/
-theorem C06_headers_at_most_once (p cap : Nat) (prog : List Op) :
-    (run (init p cap) prog).raw.calls.length ≤ 1 ∧ Ev.impl ∉ (run (init p cap) prog).trace :=
-  ⟨(C06_inv p cap prog).calls_le, scan_no_implicit _ _ _ (C06_inv p cap prog).trace⟩
+theorem C06_headers_at_most_once (p cap : Nat) (fl : Bool) (prog : List Op) :
+    (run (init p cap fl) prog).raw.calls.length ≤ 1 ∧ Ev.impl ∉ (run (init p cap fl) prog).trace :=
+  ⟨(C06_inv p cap fl prog).calls_le, scan_no_implicit _ _ _ (C06_inv p cap fl prog).trace⟩
 
 /-- **C06_committed_iff_headers_out**, **C06_status_size_match** — the state clauses of the
     invariant, spelled out for every program. -/
-theorem C06_committed_iff_headers_out (p cap : Nat) (prog : List Op) :
-    (run (init p cap) prog).committed = true ↔ ∃ c, (run (init p cap) prog).raw.sent = some c := by
-  have h := (C06_inv p cap prog).comm
+theorem C06_committed_iff_headers_out (p cap : Nat) (fl : Bool) (prog : List Op) :
+    (run (init p cap fl) prog).committed = true ↔ ∃ c, (run (init p cap fl) prog).raw.sent = some c := by
+  have h := (C06_inv p cap fl prog).comm
   rw [h, Option.isSome_iff_exists]
 
-theorem C06_status_size_match (p cap : Nat) (prog : List Op) (c : Nat)
-    (hs : (run (init p cap) prog).raw.sent = some c) :
-    (run (init p cap) prog).status = c ∧
-    (run (init p cap) prog).size = (run (init p cap) prog).raw.body ∧
-    (run (init p cap) prog).size = bodyBytes (run (init p cap) prog).trace := by
-  have h := C06_inv p cap prog
-  have hc : (run (init p cap) prog).committed = true := by rw [h.comm, hs]; rfl
+theorem C06_status_size_match (p cap : Nat) (fl : Bool) (prog : List Op) (c : Nat)
+    (hs : (run (init p cap fl) prog).raw.sent = some c) :
+    (run (init p cap fl) prog).status = c ∧
+    (run (init p cap fl) prog).size = (run (init p cap fl) prog).raw.body ∧
+    (run (init p cap fl) prog).size = bodyBytes (run (init p cap fl) prog).trace := by
+  have h := C06_inv p cap fl prog
+  have hc : (run (init p cap fl) prog).committed = true := by rw [h.comm, hs]; rfl
   have := (h.sent hc).1
   rw [hs] at this
   exact ⟨(Option.some.inj this).symm, h.size, h.size.trans h.bodyTrace.symm⟩
+
+/-! ## the header block goes out once: what it carried is fixed at commit time -/
+
+/-- what the header block carried when it went out: Content-Type, Location, Content-Disposition -/
+def sh (s : St) : Nat × Bool × Nat := (s.raw.sentCt, s.raw.sentLoc, s.raw.sentDisp)
+
+theorem sh_writeHeader_sent {t : St} (ht : Sent t) (c : Nat) : sh (writeHeader t c) = sh t := by
+  rw [writeHeader_committed_eq ht.1]; rfl
+
+theorem sh_write_sent {t : St} (ht : Sent t) (n : Nat) : sh (write t n).1 = sh t := by
+  obtain ⟨hc, v, hs⟩ := ht
+  rw [write_committed_eq hc hs]; rfl
+
+theorem sh_flush_sent {t : St} (ht : Sent t) : sh (flush t) = sh t := by
+  obtain ⟨hc, v, hs⟩ := ht
+  unfold flush
+  rw [ensureCommitted_of_committed hc]
+  show sh (if t.raw.canFlush = true then rawFlush t else t) = sh t
+  split
+  · rw [rawFlush_sent hs]; rfl
+  · rfl
+
+theorem sh_writes_sent {t : St} (ht : Sent t) (l : List Nat) : sh (writes t l).1 = sh t := by
+  induction l generalizing t with
+  | nil => rfl
+  | cons n ns ih =>
+    simp only [writes]
+    have h1 := sh_write_sent ht n
+    split
+    · simpa using h1
+    · rw [ih (Sent.of_hv (hv_write_sent ht n) ht)]; exact h1
+
+theorem sh_writeCT (t : St) (v : Nat) : sh (writeCT t v) = sh t := by
+  unfold writeCT; split <;> rfl
+
+/-- content type, `WriteHeader`, writes — on a response whose headers are out -/
+theorem sh_serve_sent {t : St} (ht : Sent t) (ct c : Nat) (l : List Nat) :
+    sh (writes (writeHeader (writeCT t ct) c) l).1 = sh t := by
+  rw [sh_writes_sent ((ht.writeCT ct).writeHeader c), sh_writeHeader_sent (ht.writeCT ct), sh_writeCT]
+
+theorem sh_step_sent {s : St} (hs : Sent s) (op : Op) : sh (step s op).1 = sh s := by
+  cases op with
+  | writeHeader c => exact sh_writeHeader_sent hs c
+  | write n => exact sh_write_sent hs n
+  | flush => exact sh_flush_sent hs
+  | before k => rfl
+  | after k => rfl
+  | json c k ok =>
+    have h1 : Sent (writeCT s ctJSON) := hs.writeCT _
+    have h3 : Sent (jsonPreset (writeCT s ctJSON) c) := by
+      unfold jsonPreset
+      rw [if_pos h1.1, ← writeHeader_committed_eq h1.1 c]; exact h1.writeHeader c
+    have h2 : sh (jsonPreset (writeCT s ctJSON) c) = sh s := by
+      unfold jsonPreset
+      rw [if_pos h1.1, ← writeHeader_committed_eq h1.1 c, sh_writeHeader_sent h1, sh_writeCT]
+    simp only [step]
+    split
+    · exact (sh_write_sent h3 _).trans h2
+    · exact h2
+  | blob c ct n =>
+    have h1 := (hs.writeCT ct).writeHeader c
+    show sh (write (writeHeader (writeCT s ct) c) n).1 = sh s
+    rw [sh_write_sent h1, sh_writeHeader_sent (hs.writeCT ct), sh_writeCT]
+  | noContent c => exact sh_writeHeader_sent hs c
+  | redirect c =>
+    simp only [step]
+    split
+    · rfl
+    · have h1 : Sent { s with loc := true } := hs
+      exact sh_writeHeader_sent h1 c
+  | stream c chunks rerr => exact sh_serve_sent hs _ c _
+  | xmlBlob c n => exact sh_serve_sent hs ctXML c [xmlHeaderLen, n]
+  | jsonpBlob c cb n => exact sh_serve_sent hs ctJS c [cb + 1, n, 2]
+  | flushRC => exact sh_flush_sent hs
+  | flushFE => exact sh_flush_sent hs
+  | unwrap => rfl
+  | copy chunks rerr => exact sh_writes_sent hs _
+  | jsonp c cb k ok => exact sh_serve_sent hs _ c _
+  | xml c k ok => exact sh_serve_sent hs _ c _
+  | render c n ok =>
+    cases ok with
+    | true =>
+      have h1 := (hs.writeCT ctHTML).writeHeader c
+      show sh (write (writeHeader (writeCT s ctHTML) c) n).1 = sh s
+      rw [sh_write_sent h1, sh_writeHeader_sent (hs.writeCT _), sh_writeCT]
+    | false => rfl
+  | file found n disp ct =>
+    have hd : hv (if disp = 0 then s else { s with disp := disp }) = hv s := by split <;> rfl
+    have hsd : Sent (if disp = 0 then s else { s with disp := disp }) := Sent.of_hv hd hs
+    have hh : sh (if disp = 0 then s else { s with disp := disp }) = sh s := by split <;> rfl
+    cases found with
+    | true => exact (sh_serve_sent hsd ct 200 _).trans hh
+    | false => exact hh
+  | hijack => rfl
+
+theorem run_append (s : St) (a b : List Op) : run s (a ++ b) = run (run s a) b := by
+  simp [run, List.foldl_append]
+
+theorem sh_run_sent {s : St} (h : Inv s) (hc : s.committed = true) (prog : List Op) :
+    sh (run s prog) = sh s := by
+  induction prog generalizing s with
+  | nil => rfl
+  | cons op ops ih =>
+    have h1 := (C06_committed_stable h hc op).1
+    exact (ih (inv_step h op) h1).trans (sh_step_sent (h.toSent hc) op)
+
+/-- **C06_sent_headers_stable** — the header block goes out once: whatever a program does
+    after the commit (helpers that set Content-Type, Redirect setting Location,
+    Attachment/Inline setting Content-Disposition), the Content-Type / Location /
+    Content-Disposition the underlying writer sent stay what they were at commit time. -/
+theorem C06_sent_headers_stable (p cap : Nat) (fl : Bool) (prog later : List Op)
+    (hc : (run (init p cap fl) prog).committed = true) :
+    sh (run (init p cap fl) (prog ++ later)) = sh (run (init p cap fl) prog) := by
+  rw [run_append]
+  exact sh_run_sent (C06_inv p cap fl prog) hc later
+
+/-- **C06_headers_snapshot_at_commit** — the commit takes the header map as it is at that
+    moment: a Content-Disposition put there by an earlier `Attachment` of a missing file
+    goes out with it. -/
+theorem C06_headers_snapshot_at_commit {s : St} (h : Inv s) (hc : s.committed = false) (c : Nat) :
+    sh (writeHeader s c) = (s.ct, s.loc, s.disp) := by
+  rw [writeHeader_uncommitted_eq hc (h.sent_none hc)]; rfl
+
+/-! ## a writer without `http.Flusher`, `Hijack` -/
+
+theorem ensureCommitted_raw_static (s : St) :
+    (ensureCommitted s).raw.canFlush = s.raw.canFlush ∧ (ensureCommitted s).raw.flushes = s.raw.flushes ∧
+    (ensureCommitted s).raw.body = s.raw.body := by
+  unfold ensureCommitted writeHeader rawWriteHeader
+  by_cases hc : s.committed = true
+  · simp [hc]
+  · by_cases h0 : s.status = 0 <;> simp [hc, h0, emit, rawSend] <;> split <;> simp
+
+/-- **C06_flush_without_flusher** — the F5 clause on a writer that cannot flush: `Flush`
+    (which panics there) has committed exactly like a `Write` would have — `Committed` is
+    true, the invariant holds in the state the recovering caller sees — and the underlying
+    writer received no flush and no body byte. -/
+theorem C06_flush_without_flusher {s : St} (h : Inv s) (hf : s.raw.canFlush = false) :
+    flush s = ensureCommitted s ∧ (flush s).committed = true ∧ Inv (flush s) ∧
+    (flush s).raw.flushes = s.raw.flushes ∧ (flush s).raw.body = s.raw.body := by
+  have hs := ensureCommitted_raw_static s
+  have he : flush s = ensureCommitted s := by
+    show (if (ensureCommitted s).raw.canFlush = true then rawFlush (ensureCommitted s)
+          else ensureCommitted s) = ensureCommitted s
+    rw [hs.1, hf]; rfl
+  rw [he]
+  exact ⟨rfl, ensureCommitted_committed s, inv_ensureCommitted h, hs.2.1, hs.2.2⟩
+
+/-- **C06_hijack_touches_nothing** — `Response.Hijack` leaves the whole state alone. -/
+theorem C06_hijack_touches_nothing (s : St) : (step s .hijack).1 = s := rfl
+
+/-! ## sequences of requests on one recycled context -/
+
+/-- **reset_eq_init** — `Context.Reset` (response.reset on a fresh writer) leaves NOTHING of
+    the earlier request: the state is the initial one with pending status 200. -/
+theorem reset_eq_init (s : St) (cap : Nat) (fl : Bool) : reset s cap fl = init 200 cap fl := rfl
+
+theorem runSnaps_fst (s : St) (ops : List Op) : (runSnaps s ops).1 = run s ops := by
+  induction ops generalizing s with
+  | nil => rfl
+  | cons o os ih =>
+    show (runSnaps (step s o).1 os).1 = run (step s o).1 os
+    exact ih _
+
+/-- the driver's `runSeqObs` visits the states of `runSeq` -/
+theorem runSeqObs_fst (cap : Nat) (fl : Bool) (s : St) (progs : List (List Op)) :
+    (runSeqObs cap fl s progs).map (·.1) = runSeq cap fl s progs := by
+  induction progs generalizing s with
+  | nil => rfl
+  | cons p ps ih =>
+    simp only [runSeqObs, runSeq, List.map_cons, runSnaps_fst]
+    rw [ih]
+
+theorem runSeq_getElem? (cap : Nat) (fl : Bool) (s0 : St) (progs : List (List Op)) (i : Nat) :
+    (runSeq cap fl s0 progs)[i]? =
+      (progs[i]?).map (fun prog => run (if i = 0 then s0 else init 200 cap fl) prog) := by
+  induction progs generalizing s0 i with
+  | nil => simp [runSeq]
+  | cons p ps ih =>
+    cases i with
+    | zero => simp [runSeq]
+    | succ j =>
+      simp only [runSeq, List.getElem?_cons_succ]
+      rw [ih, reset_eq_init]
+      simp
+
+/-- **C06_seq_fresh** — on a recycled context, the `i`-th request of ANY sequence of handler
+    programs ends in exactly the state a brand-new response would end in (pending status 200
+    for every request after the first): hooks, status, size, committed flag, header map —
+    nothing of an earlier request survives, whatever that request did or left undone. -/
+theorem C06_seq_fresh (p cap : Nat) (fl : Bool) (progs : List (List Op)) (i : Nat) :
+    (runSeq cap fl (init p cap fl) progs)[i]? =
+      (progs[i]?).map (fun prog => run (init (if i = 0 then p else 200) cap fl) prog) := by
+  rw [runSeq_getElem?]
+  cases i <;> simp
+
+theorem runSeq_length (cap : Nat) (fl : Bool) (s0 : St) (progs : List (List Op)) :
+    (runSeq cap fl s0 progs).length = progs.length := by
+  induction progs generalizing s0 with
+  | nil => rfl
+  | cons p ps ih => simp [runSeq, ih]
+
+/-- **C06_inv_seq** — the bookkeeping invariant holds at the end of every request of every
+    sequence of requests served on one context. -/
+theorem C06_inv_seq (p cap : Nat) (fl : Bool) (progs : List (List Op)) :
+    ∀ s ∈ runSeq cap fl (init p cap fl) progs, Inv s := by
+  intro s hs
+  obtain ⟨i, hi, rfl⟩ := List.getElem_of_mem hs
+  have h := C06_seq_fresh p cap fl progs i
+  rw [List.getElem?_eq_getElem hi] at h
+  cases hp : progs[i]? with
+  | none => rw [hp] at h; simp at h
+  | some prog =>
+    rw [hp] at h
+    simp only [Option.map_some, Option.some.injEq] at h
+    rw [h]
+    exact C06_inv _ cap fl prog
+
+/-- **C06_seq_first_status** — the `i`-th request sends the first status ITS OWN program
+    sets (`firstStatus` started from 200, from `p` for the very first request): a status
+    preset by an earlier request that never committed is not sent, and `Status` reports the
+    status of this request. -/
+theorem C06_seq_first_status (p cap : Nat) (fl : Bool) (progs : List (List Op)) (i : Nat)
+    (prog : List Op) (s : St) (hp : progs[i]? = some prog)
+    (hs : (runSeq cap fl (init p cap fl) progs)[i]? = some s) :
+    s.raw.sent = firstStatus (if i = 0 then p else 200) prog ∧
+    s.raw.calls = (firstStatus (if i = 0 then p else 200) prog).toList ∧
+    (∀ c, firstStatus (if i = 0 then p else 200) prog = some c → s.status = c) := by
+  rw [C06_seq_fresh, hp] at hs
+  simp only [Option.map_some, Option.some.injEq] at hs
+  subst hs
+  exact C06_first_status_wins _ cap fl prog
+
+/-- **C06_seq_trace_ok** — the events recorded during each request ALONE are accepted by the
+    hook/order specification started from the empty state: before/after-hooks registered by
+    an earlier request never run in a later one. -/
+theorem C06_seq_trace_ok (p cap : Nat) (fl : Bool) (progs : List (List Op)) :
+    ∀ s ∈ runSeq cap fl (init p cap fl) progs, traceOK s.trace = true := by
+  intro s hs
+  have h := (C06_inv_seq p cap fl progs s hs).trace
+  simp only [traceOK, h]
+  exact scanOf_quiet _
 
 /-! ## non-vacuity: concrete programs that exercise the hypotheses -/
 
@@ -1278,6 +1677,60 @@ example : (run (init 200 100) [.before 7, .flushRC, .writeHeader 404]).trace
 example : (run (init 200 100) [.after 1, .copy [2, 0, 3] false]).trace
     = [.regA 1, .hdr 200, .body 2, .runA 1, .body 3, .runA 1] := by decide
 example : firstStatus 0 [.unwrap, .copy [0] false, .copy [0, 4] true, .writeHeader 500] = some 200 := by decide
+
+/-! ### round 4 operations -/
+
+/-- JSONP commits BEFORE serialising: an unserialisable value leaves a committed 201 response
+    with `cb(` (3 bytes) written; the later status write is ignored and logged -/
+example : (run (init 200 100) [.jsonp 201 2 0 false, .writeHeader 500]).trace
+    = [.hdr 201, .body 3, .warn] := by decide
+example : (step (init 200 100) (.jsonp 201 2 0 false)).2.err = true := by decide
+/-- XML: header (39 bytes) then the element in one write; short write inside the element -/
+example : (run (init 200 45) [.after 1, .xml 202 3 true]).trace
+    = [.regA 1, .hdr 202, .body 39, .runA 1, .body 6, .runA 1] := by decide
+example : firstStatus 200 [.xml 418 0 false, .writeHeader 500] = some 418 := by decide
+/-- Render without a (working) renderer touches nothing; with one it is HTMLBlob -/
+example : firstStatus 200 [.render 500 4 false, .render 203 4 true] = some 203 := by decide
+example : step (init 200 9) (.render 203 4 true) = step (init 200 9) (.blob 203 ctHTML 4) := by decide
+/-- Attachment of a missing file leaves Content-Disposition in the header map; it goes out
+    with the later commit.  A found file commits with 200 whatever was pending. -/
+example : (run (init 200 100) [.file false 0 1 7, .blob 201 1 2]).raw.sentDisp = 1 := by decide
+example : firstStatus 200 [.json 202 0 false, .file true 5 0 7] = some 200 := by decide
+example : (run (init 200 100) [.before 3, .file true 5 2 7, .file true 2 0 7]).trace
+    = [.regB 3, .runB 3, .hdr 200, .body 5, .warn, .body 2] := by decide
+/-- the hypothesis of `C06_sent_headers_stable` is met; a late Inline does not change what went out -/
+example : (run (init 200 100) [.file false 0 1 7, .blob 201 1 2]).committed = true ∧
+    sh (run (init 200 100) ([.file false 0 1 7, .blob 201 1 2] ++ [.file true 3 2 7, .redirect 302]))
+      = (1, false, 1) := by decide
+/-- Hijack changes nothing, before or after commit -/
+example : run (init 0 5) [.hijack, .write 1, .hijack] = run (init 0 5) [.write 1] := by decide
+/-- flush on a writer without http.Flusher: commits (hook runs, 200 out), no flush reaches
+    the writer, the later status write is ignored and logged -/
+example : (run (init 200 100 false) [.before 7, .flush, .writeHeader 404]).trace
+    = [.regB 7, .runB 7, .hdr 200, .warn] := by decide
+example : (step (init 200 100 false) .flushRC).2.err = true ∧
+    (step (init 200 100 true) .flushRC).2.err = false := by decide
+example : (init 200 100 false).raw.canFlush = false := rfl
+
+/-! ### sequences -/
+
+/-- request A presets 202 and never commits, registers hooks; request B just writes: B sends
+    200, none of A's hooks run in B -/
+example : (runSeq 100 true (init 200 100) [[.before 1, .after 2, .json 202 0 false], [.write 2]]).map
+      (fun s => (s.raw.sent, s.trace))
+    = [(none, [.regB 1, .regA 2]), (some 200, [.hdr 200, .body 2])] := by decide
+/-- request A commits 404 with 5 bytes; request B starts from Size 0 / uncommitted -/
+example : (runSeq 100 true (init 0 100) [[.blob 404 1 5], [.hijack], [.flush]]).map
+      (fun s => (s.committed, s.status, s.size))
+    = [(true, 404, 5), (false, 200, 0), (true, 200, 0)] := by decide
+/-- the hypotheses of `C06_seq_first_status` are met by a concrete sequence -/
+example : ([[.json 202 0 false], [.write 2]] : List (List Op))[1]? = some [.write 2] ∧
+    ((runSeq 100 true (init 200 100) [[.json 202 0 false], [.write 2]])[1]?).map (·.raw.sent)
+      = some (some 200) := by decide
+/-- what a `reset` that forgot the pending status of an uncommitted response would do (the
+    shape of an early return when `!Committed`): the second request goes out with 202 -/
+example : (run { reset (run (init 200 100) [.json 202 0 false]) 100 true with status := 202 } [.write 2]).raw.sent
+    = some 202 := by decide
 
 /-! ## the unrepaired code violates the invariant (F5, F6)
 
